@@ -655,3 +655,132 @@ Proof.
   - cbn [tr_rows tr_nrows]. apply map_length.
   - cbn [tr_rows]. apply tr_leaf_widths; assumption.
 Qed.
+
+Lemma tr_stage1_mapped c r m : 0 < c -> tr_stage1 c r -> tr_wf c (TrMapped r m) -> tr_stage1 c (TrMapped r m).
+Proof.
+  intros Hc IH Hwf cs Hnd Hincl Hreq.
+  inversion Hwf as [| | |r' m' Hr Hndm| |]; subst.
+  inversion Hreq as [| | |r' m' cs' ocs Horig Hreq'| |]; subst.
+  destruct (tr_orig_cols_spec _ _ _ _ Horig) as [Hmap Hio].
+  assert (Hndo : NoDup ocs) by (apply (NoDup_map_inv (tr_rename m)); rewrite Hmap; exact Hnd).
+  destruct (IH ocs Hndo Hio Hreq') as [Hread [Hstream [Hlen Hw]]].
+  repeat split.
+  - cbn [tr_read tr_rows]. rewrite Horig, Hread. unfold tr_rename_frame, ch_whole. simpl. rewrite Hmap. reflexivity.
+  - cbn [tr_stream tr_rows tr_eb]. rewrite Horig, Hstream. cbn [snd].
+    rewrite tr_rename_sform, Hmap. reflexivity.
+  - cbn [tr_rows tr_nrows]. rewrite Horig. exact Hlen.
+  - cbn [tr_rows]. rewrite Horig. rewrite <- Hmap, map_length. exact Hw.
+Qed.
+
+Lemma tr_stage1_computed c r k f : 0 < c -> tr_stage1 c r -> tr_wf c (TrComputed r k f) ->
+  tr_stage1 c (TrComputed r k f).
+Proof.
+  intros Hc IH Hwf cs Hnd Hincl Hreq.
+  inversion Hwf as [| | | | |r' k' f' g Hr Hk Hf]; subst.
+  inversion Hreq as [| | | | |r' k' f' cs' Hreq']; subst.
+  cbn [tr_names] in Hincl.
+  set (cs' := tr_without k cs) in *.
+  assert (Hnd' : NoDup cs') by (apply tr_without_nodup; exact Hnd).
+  assert (Hincl' : incl cs' (tr_names r)).
+  { intros x Hx. apply tr_without_In in Hx. destruct Hx as [Hx Hne].
+    apply Hincl in Hx. apply in_app_or in Hx. destruct Hx as [Hx|[Hx|[]]]; [exact Hx | congruence]. }
+  assert (Hk' : ~ In k cs') by (intros Hx; apply tr_without_In in Hx; destruct Hx; congruence).
+  assert (Hcs : incl cs (cs' ++ [k])).
+  { intros x Hx. destruct (Nat.eq_dec x k) as [->|Hne].
+    - apply in_or_app. right. left. reflexivity.
+    - apply in_or_app. left. apply tr_without_In. split; assumption. }
+  assert (Hnd2 : NoDup (cs' ++ [k])).
+  { apply tr_nodup_app_intro; [exact Hnd' | repeat constructor; intros [] |].
+    intros x Hx [<-|[]]. contradiction. }
+  destruct (IH cs' Hnd' Hincl' Hreq') as [Hread [Hstream [Hlen Hw]]].
+  rewrite (tr_rows_computed k f g Hf).
+  repeat split.
+  - cbn [tr_read]. fold cs'. rewrite Hread. rewrite (tr_add_col_rowwise k f g Hf).
+    cbn [ch_names ch_whole]. rewrite tr_fr_map_whole. apply tr_select_whole; assumption.
+  - cbn [tr_stream tr_eb]. fold cs'. rewrite Hstream. cbn [snd].
+    apply (tr_compute_sform k f g Hf); assumption.
+  - rewrite !map_length. exact Hlen.
+  - apply tr_leaf_widths; [exact Hnd2 | | exact Hcs].
+    apply Forall_map. rewrite Forall_forall in *. intros row Hrow. unfold tr_ext.
+    rewrite !app_length. simpl. rewrite (Hw row Hrow). reflexivity.
+Qed.
+
+Definition tr_member (cs : list nat) (r : tr_reader) : tr_mem :=
+  (tr_sub (tr_names r) cs, tr_rows r (tr_sub (tr_names r) cs), tr_eb r).
+
+Lemma tr_stage1_joined c rs : 0 < c -> Forall (fun r => tr_wf c r -> tr_stage1 c r) rs ->
+  tr_wf c (TrJoined rs) -> tr_stage1 c (TrJoined rs).
+Proof.
+  intros Hc IH Hwf cs Hnd Hincl Hreq.
+  inversion Hwf as [| | | |rs' Hne Hall Hn Hndn|]; subst.
+  inversion Hreq as [| | | |rs' cs' Hreqs|]; subst.
+  cbn [tr_names] in Hincl.
+  (* facts about every member *)
+  assert (Hmem : forall r, In r rs ->
+            tr_read r (Some (tr_sub (tr_names r) cs)) = Ok (ch_whole (tr_mN (tr_member cs r)) (tr_mR (tr_member cs r)))
+            /\ tr_stream r c (Some (tr_sub (tr_names r) cs))
+               = tr_sform c (tr_mN (tr_member cs r)) (tr_mR (tr_member cs r)) (tr_mb (tr_member cs r))
+            /\ length (tr_mR (tr_member cs r)) = tr_nrows (TrJoined rs)
+            /\ Forall (fun row => length row = length (tr_mN (tr_member cs r))) (tr_mR (tr_member cs r))).
+  { intros r Hr. rewrite Forall_forall in IH, Hall.
+    assert (Hwr := Hall r Hr).
+    destruct (IH r Hr Hwr (tr_sub (tr_names r) cs)) as [H1 [H2 [H3 H4]]].
+    - apply tr_sub_nodup. apply (tr_wf_names_nodup c). exact Hwr.
+    - apply tr_sub_incl.
+    - apply Hreqs. exact Hr.
+    - unfold tr_member, tr_mN, tr_mR, tr_mb. cbn [fst snd]. rewrite <- (Hn r Hr). auto. }
+  destruct rs as [|r0 rs']; [congruence|].
+  set (subs := flat_map (fun r' => tr_sub (tr_names r') cs) (r0 :: rs')).
+  assert (Hsubs_nd : NoDup subs).
+  { unfold subs, tr_sub. rewrite tr_flat_map_filter. apply NoDup_filter. exact Hndn. }
+  assert (Hsubs_incl : incl cs subs).
+  { intros x Hx. unfold subs, tr_sub. rewrite tr_flat_map_filter. apply filter_In. split.
+    - apply Hincl. exact Hx.
+    - apply ch_mem_In. exact Hx. }
+  assert (Hsubs_eq : subs = tr_mN (tr_member cs r0) ++ flat_map tr_mN (map (tr_member cs) rs')).
+  { unfold subs. cbn [flat_map]. rewrite tr_flat_map_map. reflexivity. }
+  assert (Hrows_eq : tr_hzip_all (map (fun r' => tr_rows r' (tr_sub (tr_names r') cs)) (r0 :: rs'))
+                     = fold_left tr_hzip (map tr_mR (map (tr_member cs) rs')) (tr_mR (tr_member cs r0))).
+  { cbn [map tr_hzip_all]. rewrite map_map. reflexivity. }
+  assert (Hlens : forall p, In p (map (tr_member cs) rs') -> length (tr_mR p) = length (tr_mR (tr_member cs r0))).
+  { intros p Hp. apply in_map_iff in Hp. destruct Hp as [r [<- Hr]].
+    destruct (Hmem r (or_intror Hr)) as [_ [_ [H3 _]]]. destruct (Hmem r0 (or_introl eq_refl)) as [_ [_ [H3' _]]].
+    rewrite H3, H3'. reflexivity. }
+  assert (Htr : tr_rows (TrJoined (r0 :: rs')) cs
+                = map (ch_select_row subs cs)
+                      (fold_left tr_hzip (map tr_mR (map (tr_member cs) rs')) (tr_mR (tr_member cs r0)))).
+  { cbn [tr_rows]. fold subs. rewrite Hrows_eq. reflexivity. }
+  rewrite Htr.
+  repeat split.
+  - cbn [tr_read].
+    rewrite (tr_seq_map_ok _ (fun r' => ch_whole (tr_mN (tr_member cs r')) (tr_mR (tr_member cs r')))).
+    2:{ intros r Hr. cbn [tr_subset]. apply (Hmem r Hr). }
+    cbn [map]. rewrite <- (map_map (tr_member cs) (fun p => ch_whole (tr_mN p) (tr_mR p))).
+    rewrite tr_hjoin_fold by exact Hlens.
+    rewrite <- Hsubs_eq. apply tr_select_whole; assumption.
+  - cbn [tr_stream].
+    rewrite (map_ext_in _ (fun r' => tr_sform c (tr_mN (tr_member cs r')) (tr_mR (tr_member cs r')) (tr_mb (tr_member cs r')))).
+    2:{ intros r Hr. cbn [tr_subset]. apply (Hmem r Hr). }
+    cbn [map]. rewrite <- (map_map (tr_member cs) (fun p => tr_sform c (tr_mN p) (tr_mR p) (tr_mb p))).
+    rewrite tr_join2_fold by exact Hlens.
+    rewrite <- Hsubs_eq. rewrite tr_finish_sform by assumption.
+    cbn [tr_eb]. rewrite (map_map (tr_member cs) tr_mb). reflexivity.
+  - rewrite map_length. rewrite tr_hzip_fold_length.
+    + apply (Hmem r0). left. reflexivity.
+    + intros R HR. apply in_map_iff in HR. destruct HR as [p [<- Hp]]. apply Hlens. exact Hp.
+  - apply tr_leaf_widths; [exact Hsubs_nd | | exact Hsubs_incl].
+    rewrite Hsubs_eq. apply tr_hzip_fold_width.
+    + apply (Hmem r0). left. reflexivity.
+    + intros p Hp. apply in_map_iff in Hp. destruct Hp as [r [<- Hr]]. apply (Hmem r). right. exact Hr.
+Qed.
+
+Theorem tr_stage1_all c : 0 < c -> forall r, tr_wf c r -> tr_stage1 c r.
+Proof.
+  intros Hc r. induction r as [t|t|t bl bl0|r m IH|rs IH|r k f IH] using tr_reader_ind'; intros Hwf.
+  - apply tr_stage1_frame; assumption.
+  - apply tr_stage1_csv; assumption.
+  - apply tr_stage1_parquet; assumption.
+  - apply tr_stage1_mapped; [exact Hc | | exact Hwf]. apply IH. inversion Hwf; assumption.
+  - apply tr_stage1_joined; assumption.
+  - apply tr_stage1_computed; [exact Hc | | exact Hwf]. apply IH. inversion Hwf; assumption.
+Qed.
